@@ -325,35 +325,52 @@ func init() {
 				f, _ := loadedField(ci.Common().Args[0])
 				return f != nil && f.Name() == "t3RTX"
 			}
-			ifOn := func(fn *ssa.Function, sizeFn *ssa.Function, op token.Token) *ssa.If {
+			// ifOn: the branch on "sizeFn() compared with 0" and the successor index on which the size is positive
+			ifOn := func(fn *ssa.Function, sizeFn *ssa.Function) (*ssa.If, int) {
 				var out *ssa.If
+				pos := 0
 				forEachInstr(fn, func(in ssa.Instruction) {
 					ifi, ok := in.(*ssa.If)
+					if !ok || out != nil {
+						return
+					}
+					b, ok := ifi.Cond.(*ssa.BinOp)
 					if !ok {
 						return
 					}
-					if b, ok := ifi.Cond.(*ssa.BinOp); ok && b.Op == op && IsCallOf(sizeFn)(b.X) && IsConstInt(0)(b.Y) && out == nil {
-						out = ifi
+					op := b.Op
+					switch {
+					case IsCallOf(sizeFn)(b.X) && IsConstInt(0)(b.Y):
+					case IsCallOf(sizeFn)(b.Y) && IsConstInt(0)(b.X):
+						op = swapOp(op)
+					default:
+						return
+					}
+					switch op { // size op 0
+					case token.GTR, token.NEQ:
+						out, pos = ifi, 0
+					case token.EQL, token.LEQ:
+						out, pos = ifi, 1
 					}
 				})
-				return out
+				return out, pos
 			}
 			adv := c.Fn("Association.onCumulativeTSNAckPointAdvanced")
-			if ifi := ifOn(adv, c.Fn("payloadQueue.size"), token.EQL); ifi != nil {
-				ok, bad := MustPassFromBlock(ifi.Block().Succs[1], isT3Start, PathOpts{})
+			if ifi, pos := ifOn(adv, c.Fn("payloadQueue.size")); ifi != nil {
+				ok, bad := MustPassFromBlock(ifi.Block().Succs[pos], isT3Start, PathOpts{})
 				c.Check(ok, "advance-restarts-t3", c.Pos(ifi), "inflight > 0 after a cumulative advance ⇒ t3RTX.start", "inflight>0 path without t3RTX.start: "+c.P.InstrPos(bad))
 			} else {
 				c.Fail("advance-restarts-t3", "", "inflightQueue.size()==0 test not found")
 			}
 			pp := c.Fn("Association.postprocessSack")
-			if ifi := ifOn(pp, c.Fn("payloadQueue.size"), token.GTR); ifi != nil {
-				ok, bad := MustPassFromBlock(ifi.Block().Succs[0], isT3Start, PathOpts{})
+			if ifi, pos := ifOn(pp, c.Fn("payloadQueue.size")); ifi != nil {
+				ok, bad := MustPassFromBlock(ifi.Block().Succs[pos], isT3Start, PathOpts{})
 				c.Check(ok, "sack-starts-t3", c.Pos(ifi), "inflight > 0 after any SACK ⇒ t3RTX.start", "inflight>0 path without t3RTX.start: "+c.P.InstrPos(bad))
 			} else {
 				c.Fail("sack-starts-t3", "", "inflightQueue.size()>0 test not found in postprocessSack")
 			}
-			if ifi := ifOn(pp, c.Fn("pendingQueue.size"), token.GTR); ifi != nil {
-				ok, bad := MustPassFromBlock(ifi.Block().Succs[0], c.P.CallTargetPred(1, awake), PathOpts{})
+			if ifi, pos := ifOn(pp, c.Fn("pendingQueue.size")); ifi != nil {
+				ok, bad := MustPassFromBlock(ifi.Block().Succs[pos], c.P.CallTargetPred(1, awake), PathOpts{})
 				c.Check(ok, "sack-wakes-for-pending", c.Pos(ifi), "pending > 0 and nothing in flight after a SACK ⇒ writer woken", "pending>0 path without wake: "+c.P.InstrPos(bad))
 			} else {
 				c.Fail("sack-wakes-for-pending", "", "pendingQueue.size()>0 test not found in postprocessSack")
@@ -457,6 +474,10 @@ func isLoopBound(v ssa.Value) bool {
 		return false
 	}
 	if _, isPhi := b.X.(*ssa.Phi); isPhi {
+		return true
+	}
+	// range-over-int entry guard: 0 < n
+	if k, isK := constInt(b.X); isK && k == 0 {
 		return true
 	}
 	// range-over-slice form: φ+1 < len
